@@ -54,7 +54,27 @@ def sym_event(sym, rng=None, k=0):
         return {"k": "progress", "token": [{"s": "foreign"}, {"i": 5}, None][k % 3], "progress": 0.5, "total": 2, "message": "foreign"}
     if sym == "B":
         return {"k": "batch", "items": [{"k": "notif", "method": "notifications/message"}, {"k": "resp", "id": "$ID", "p": {"inbatch": k}}]}
+    if sym == "X":  # wire objects at the edge of what the parser accepts; all carry a method
+        return {"k": "raw", "d": RAW[k % len(RAW)]}
     raise ValueError(sym)
+
+
+RAW = [
+    {"jsonrpc": "2.0", "method": "notifications/progress", "params": [1, 2]},
+    {"jsonrpc": "2.0", "method": "notifications/progress", "params": ["$TOK", 0.5, 1]},
+    {"jsonrpc": "2.0", "method": "notifications/progress", "params": "text"},
+    {"jsonrpc": "2.0", "method": "notifications/progress", "params": 7},
+    {"jsonrpc": "2.0", "method": "notifications/progress", "params": None},
+    {"jsonrpc": "2.0", "method": "notifications/progress", "params": {"progressToken": ["$TOK"], "progress": 1}},
+    {"jsonrpc": "2.0", "method": "notifications/progress", "params": {"progressToken": {"t": "$TOK"}, "progress": 1}},
+    {"jsonrpc": "2.0", "method": "notifications/message", "params": [1]},
+    {"jsonrpc": "2.0", "method": "notifications/cancelled", "params": ["$ID"]},
+    {"jsonrpc": "2.0", "id": "$ID", "method": "sampling/createMessage", "params": [1]},
+    {"jsonrpc": "2.0", "id": "$ID", "method": "roots/list", "params": "text"},
+    {"jsonrpc": "2.0", "method": 7},
+    {"jsonrpc": "2.0", "method": "", "params": {}},
+    {"jsonrpc": "2.0", "method": "notifications/progress", "params": {"progressToken": "$TOK", "progress": "half", "total": [2]}},
+]
 
 
 def fix_twin(ev, case_id):
